@@ -2,6 +2,7 @@ package main
 
 import (
 	"fmt"
+	"go/token"
 	"strings"
 
 	"golang.org/x/tools/go/ssa"
@@ -121,7 +122,9 @@ func init() {
 				}
 			}
 			c.check(okMissing, "auth-before-traverse", name+": missing node is an error", p.Pos(fnPos(f)), "absent proof node → error", "a proof that lacks the expected node is no longer rejected")
+			c10NextHashAuthentic(c, f, get, name)
 		}
+		c.floor("next-hash-authentic", 5)
 		c.floor("auth-before-traverse", 7)
 
 		// range-fork mirror rule
@@ -325,4 +328,171 @@ func c10ContentHashPure(c *Ctx) {
 		c.check(bad == "", "content-hash-pure", "trienode."+tn+".Hash", p.Pos(fnPos(f)), "computed from children/path only", "the content hash of a node consults the cache stored on the node ("+bad+"): VerifyProof then accepts a proof node whose content was altered but whose cached hash was left in place")
 	}
 	_ = n
+}
+
+// c10NextHashAuthentic: the hash under which the verifier looks up the NEXT proof node may only come from (a) the root
+// parameter, (b) a field / hash-node child of the proof node that was just authenticated, or (c) a content hash
+// recomputed with the verifier's hash function. Anything else — in particular a hash cached on a node of the (untrusted)
+// proof — lets an altered proof continue under an attacker-chosen hash (defect F19).
+func c10NextHashAuthentic(c *Ctx, f *ssa.Function, get *ssa.Call, name string) {
+	p := c.P
+	if len(get.Call.Args) < 2 {
+		c.und("next-hash-authentic", name, p.Pos(fnPos(f)), "proof.Get has no key argument")
+		return
+	}
+	var node ssa.Value // the looked-up proof node
+	if refs := get.Referrers(); refs != nil {
+		for _, r := range *refs {
+			if ex, ok := r.(*ssa.Extract); ok && ex.Index == 0 {
+				node = ex
+			}
+		}
+	}
+	fromNode := func(v ssa.Value) bool {
+		// v is the proof node itself, a type-asserted view of it, or the child selected from it by get(node, …)
+		var rec func(v ssa.Value, d int) bool
+		rec = func(v ssa.Value, d int) bool {
+			if v == nil || d > 10 {
+				return false
+			}
+			if node != nil && flowsFrom(v, node, 0) {
+				return true
+			}
+			switch x := v.(type) {
+			case *ssa.Extract:
+				return rec(x.Tuple, d+1)
+			case *ssa.TypeAssert:
+				return rec(x.X, d+1)
+			case *ssa.Phi:
+				for _, e := range x.Edges {
+					if !rec(e, d+1) {
+						return false
+					}
+				}
+				return len(x.Edges) > 0
+			case *ssa.Call:
+				if cal := x.Call.StaticCallee(); cal != nil && cal.Name() == "get" && len(x.Call.Args) > 0 {
+					return rec(x.Call.Args[0], d+1)
+				}
+			case *ssa.UnOp:
+				if x.Op == token.MUL {
+					return rec(x.X, d+1)
+				}
+			case *ssa.FieldAddr:
+				return rec(x.X, d+1)
+			case *ssa.Field:
+				return rec(x.X, d+1)
+			case *ssa.ChangeInterface:
+				return rec(x.X, d+1)
+			case *ssa.ChangeType:
+				return rec(x.X, d+1)
+			}
+			return false
+		}
+		return rec(v, 0)
+	}
+	type leaf struct {
+		ok   bool
+		what string
+		pos  token.Pos
+	}
+	var leaves []leaf
+	seen := map[ssa.Value]bool{}
+	var walk func(v ssa.Value, d int)
+	walk = func(v ssa.Value, d int) {
+		if v == nil || seen[v] {
+			return
+		}
+		seen[v] = true
+		if d > 14 {
+			leaves = append(leaves, leaf{false, "source too deep: " + term(v), v.Pos()})
+			return
+		}
+		switch x := v.(type) {
+		case *ssa.Phi:
+			for _, e := range x.Edges {
+				walk(e, d+1)
+			}
+		case *ssa.ChangeType:
+			walk(x.X, d+1)
+		case *ssa.Convert:
+			walk(x.X, d+1)
+		case *ssa.UnOp:
+			if x.Op != token.MUL {
+				leaves = append(leaves, leaf{false, term(v), v.Pos()})
+				return
+			}
+			if a, ok := x.X.(*ssa.Alloc); ok {
+				n := 0
+				if refs := a.Referrers(); refs != nil {
+					for _, r := range *refs {
+						if st, ok := r.(*ssa.Store); ok && st.Addr == a {
+							n++
+							walk(st.Val, d+1)
+						}
+					}
+				}
+				if n == 0 {
+					leaves = append(leaves, leaf{false, "local never assigned: " + term(v), v.Pos()})
+				}
+				return
+			}
+			walk(x.X, d+1)
+		case *ssa.Parameter:
+			ok := len(f.Params) > 0 && x == f.Params[0]
+			leaves = append(leaves, leaf{ok, "parameter " + x.Name(), x.Pos()})
+		case *ssa.Extract:
+			if ta, ok := x.Tuple.(*ssa.TypeAssert); ok && x.Index == 0 {
+				walk(ta, d+1)
+				return
+			}
+			leaves = append(leaves, leaf{false, term(v), v.Pos()})
+		case *ssa.TypeAssert:
+			// the hash-node child of the authenticated node
+			leaves = append(leaves, leaf{fromNode(x.X), "child " + typeShort(x.AssertedType) + " of " + term(x.X), x.Pos()})
+		case *ssa.FieldAddr:
+			leaves = append(leaves, leaf{fromNode(x.X), "field " + term(v), x.Pos()})
+		case *ssa.Field:
+			leaves = append(leaves, leaf{fromNode(x.X), "field " + term(v), x.Pos()})
+		case *ssa.Call:
+			cc := x.Call
+			nm := ""
+			var recv ssa.Value
+			args := cc.Args
+			if cc.IsInvoke() {
+				nm = cc.Method.Name()
+				recv = cc.Value
+			} else if cal := cc.StaticCallee(); cal != nil {
+				nm = cal.Name()
+				if cal.Signature.Recv() != nil && len(args) > 0 {
+					recv, args = args[0], args[1:]
+				}
+			}
+			ok := false
+			if nm == "Hash" && recv != nil && fromNode(recv) {
+				for _, a := range args {
+					if pa, isP := a.(*ssa.Parameter); isP && strings.HasSuffix(pa.Type().String(), "crypto.HashFn") {
+						ok = true
+					}
+				}
+			}
+			leaves = append(leaves, leaf{ok, "call " + term(v), x.Pos()})
+		default:
+			leaves = append(leaves, leaf{false, term(v), v.Pos()})
+		}
+	}
+	walk(get.Call.Args[1], 0)
+	if len(leaves) < 2 {
+		c.und("next-hash-authentic", name, p.Pos(get.Pos()), fmt.Sprintf("only %d source(s) of the expected hash were found", len(leaves)))
+		return
+	}
+	for i, l := range leaves {
+		pos := l.pos
+		if !pos.IsValid() {
+			pos = get.Pos()
+		}
+		c.check(l.ok, "next-hash-authentic", fmt.Sprintf("%s: expected-hash source #%d", name, i+1), p.Pos(pos),
+			"the next expected hash is the root, a child hash stored in the authenticated node, or a recomputed content hash ("+l.what+")",
+			"the next expected hash is taken from "+l.what+" — untrusted proof data (e.g. a hash cached on a proof node) must not decide which node is fetched next")
+	}
 }
